@@ -44,6 +44,8 @@ pub(crate) mod verif_timer {
         let mut alive = [true; K];
         let mut reg = [false; K]; // registered, not yet expired
         let mut expired = [false; K]; // expired by a check, not yet observed by a poll
+        let mut dead = [false; K]; // slot's future was dropped and not re-created yet
+        let mut dsn = [[0u32; 2]; K]; // wake counts of its two wakers just before the drop
         let mut done = [false; K];
         let mut lw = [0u8; K];
         let mut snap = [0u32; K];
@@ -66,6 +68,7 @@ pub(crate) mod verif_timer {
                     dl[i] = s.below(4) as u64;
                     *f = ManuallyDrop::new(LocalTimer::deadline(&svc, dl[i]));
                     alive[i] = true;
+                    dead[i] = false;
                     fresh[i] = true;
                     oracle!(p, P17, !f.is_terminated(), "C17 timer: fresh timer future reports terminated");
                 }
@@ -105,6 +108,8 @@ pub(crate) mod verif_timer {
                 s.assume(alive[i] && (reg[i] || expired[i] || done[i]));
                 let f = match i { 0 => &mut f0, 1 => &mut f1, _ => &mut f2 };
                 if reg[i] && (reg[0] as u8 + reg[1] as u8 + reg[2] as u8) >= 2 { bits |= W_DROP_REGISTERED; }
+                dsn[i] = match i { 0 => [c0a.n(), c0b.n()], 1 => [c1a.n(), c1b.n()], _ => [c2a.n(), c2b.n()] };
+                dead[i] = true;
                 unsafe { ManuallyDrop::drop(f) };
                 alive[i] = false;
                 reg[i] = false;
@@ -166,6 +171,12 @@ pub(crate) mod verif_timer {
                 i += 1;
             }
             oracle!(p, P15, svc.next_expiration() == mn, "C15 timer: next_expiration() differs from the smallest registered deadline");
+            if (p & P01) != 0 {
+                // C01: a dropped future is in no wait queue any more, so its task is never woken again
+                if dead[0] { assert!(c0a.n() == dsn[0][0] && c0b.n() == dsn[0][1], "C01 timer: the task of a dropped future was woken (dangling waiter)"); }
+                if dead[1] { assert!(c1a.n() == dsn[1][0] && c1b.n() == dsn[1][1], "C01 timer: the task of a dropped future was woken (dangling waiter)"); }
+                if dead[2] { assert!(c2a.n() == dsn[2][0] && c2b.n() == dsn[2][1], "C01 timer: the task of a dropped future was woken (dangling waiter)"); }
+            }
             if (p & P17) != 0 {
                 if alive[0] { assert!(f0.is_terminated() == done[0], "C17 timer: is_terminated() differs from 'completed'"); }
                 if alive[1] { assert!(f1.is_terminated() == done[1], "C17 timer: is_terminated() differs from 'completed'"); }
